@@ -59,6 +59,56 @@ func vkAddDecoys(m *dns.Msg, first bool) bool {
 }
 
 func init() {
+	vkKinds = append(vkKinds, vkKind{"forge-cname-foreign-dname", 0, func(c *vkTamperCtx, m *dns.Msg) bool {
+		// A forged, unsigned CNAME at the query name dressed up as an RFC 6672 synthesis: an
+		// unsigned DNAME owned by an ANCESTOR OUTSIDE the signed zone sits in the authority
+		// section (where out-of-zone records are tolerated as referral remnants) and a junk
+		// RRSIG(CNAME) names the zone as signer so that this signer is proposed at all.
+		if c.zone == nil || !c.zone.Mode.Signed() || c.zone.Apex == "." {
+			return false
+		}
+		switch c.q.Qtype {
+		case dns.TypeDNSKEY, dns.TypeDS, dns.TypeCNAME, dns.TypeDNAME:
+			return false
+		}
+		qn := strings.ToLower(dns.Fqdn(c.q.Name))
+		if qn == c.zone.Apex || !dns.IsSubDomain(c.zone.Apex, qn) {
+			return false
+		}
+		off, end := dns.NextLabel(c.zone.Apex, 0)
+		parent := "."
+		if !end {
+			parent = c.zone.Apex[off:]
+		}
+		tgtZone := "u.t."
+		target := strings.TrimSuffix(qn, parent) + tgtZone
+		if parent == "." {
+			target = qn + tgtZone
+		}
+		var tmpl *dns.RRSIG
+		for _, sec := range [][]dns.RR{m.Answer, m.Ns} {
+			for _, rr := range sec {
+				if sgn, ok := rr.(*dns.RRSIG); ok && tmpl == nil {
+					tmpl = sgn
+				}
+			}
+		}
+		if tmpl == nil {
+			return false
+		}
+		junk := vkDecoy(tmpl)
+		junk.Hdr.Name, junk.Hdr.Ttl, junk.OrigTtl = c.q.Name, 300, 300
+		junk.TypeCovered = dns.TypeCNAME
+		junk.Labels = uint8(dns.CountLabel(qn))
+		junk.SignerName = c.zone.Apex
+		m.Rcode = dns.RcodeSuccess
+		m.Answer = []dns.RR{
+			&dns.CNAME{Hdr: dns.RR_Header{Name: c.q.Name, Rrtype: dns.TypeCNAME, Class: dns.ClassINET, Ttl: 300}, Target: target},
+			junk,
+		}
+		m.Ns = []dns.RR{&dns.DNAME{Hdr: dns.RR_Header{Name: parent, Rrtype: dns.TypeDNAME, Class: dns.ClassINET, Ttl: 300}, Target: tgtZone}}
+		return true
+	}})
 	bases := []struct {
 		name string
 		tier int
